@@ -1,10 +1,19 @@
 /-!
-# Logic blocks (C18) — model of `mpf/devices/logic_blocks.py` (Counter / Accrual / Sequence, `persist_state: false`)
+# Logic blocks (C18) — model of `mpf/devices/logic_blocks.py` (Counter / Accrual / Sequence)
 
 Time is in ticks of 1/8 s (the dyadic grid of the correspondence run); the two delays of a block
-(`ignore_hits_within_window`, `timeout`) are kept as absolute deadlines.  One `tick` advances the clock by one tick
-and then runs what became due (both callbacks commute: the window callback posts nothing and `reset` does not touch
-`ignore_hits`).  Every function returns the new state and the events posted, in posting order.
+(`ignore_hits_within_window`, `timeout`) are kept as absolute deadlines.  The scheduler is NOT modelled as a policy:
+`clock` moves time by one tick and is refused while anything is due at the current instant; every due callback is
+run by its own op (`fireW`, `fireT`, and `fireD` for a delayed control event), in whatever order the op sequence
+says - the theorems quantify over all op sequences, hence over all orders of same-instant callbacks; the
+correspondence run replays the order the real loop chose.  Every function returns the new state and the events
+posted, in posting order.
+
+The second half (`Sys`, `XOp`, `xstep`) wraps the block with its environment: the current values of the templates
+`starting_count` / `count_complete_value` (`setStart` / `setGoal`: a machine or player variable changed - the block
+reads them at reset / mode start and at every hit / add / subtract / jump), the delayed control events
+(`{event: delay}` form: `dpost` schedules, `fireD` runs; the calls of a mode-owned block die with the mode), and
+`persist_state` (one stored state per player: `stopMode` / `startMode p`).
 
 * `count`  = `Counter.count`            * `hitStep` = `Accrual.hit` / `Sequence.hit`
 * `adjust` = `event_add/subtract/jump`  * `complete`, `reset`, `enable`, `disable`, `restart` = the `LogicBlock` methods
@@ -36,6 +45,7 @@ inductive Obs
   | hitStep (step : Int)                             -- accrual / sequence: step
   | complete
   | timeout
+  | refused                                          -- the op was not possible now (timer not due / clock blocked)
   deriving DecidableEq, Repr
 
 structure St where
@@ -52,7 +62,7 @@ structure St where
 inductive Op
   | count | hit (k : Nat) | enable | disable | reset | restart
   | add (n : Int) | sub (n : Int) | set (n : Int)
-  | tick | unload | load
+  | clock | fireW | fireT | advr (k : Nat) | unload | load
   deriving DecidableEq, Repr
 
 /-- `Counter._initialize`: the sign of the interval follows the direction -/
@@ -156,14 +166,21 @@ def sequenceHit (c : Cfg) (s : St) (k : Nat) : St × List Obs :=
   let k2 := if decide ((c.steps : Int) ≤ s1.value) then complete c s1 else (s1, [])
   (k2.1, upd s1 :: Obs.hitStep s1.value :: k2.2)
 
-/-- one tick of the clock, then the delays that became due -/
-def tick (c : Cfg) (s : St) : St × List Obs :=
-  let s0 := { s with now := s.now + 1 }
-  let s1 := if s0.windowUntil = some s0.now then { s0 with windowUntil := none } else s0
-  if s1.timeoutDue = some s1.now then
-    let r := reset c { s1 with timeoutDue := none }
+/-- one tick of the clock; refused while a delay of the block is due and has not run -/
+def clock (s : St) : St × List Obs :=
+  if s.windowUntil = some s.now ∨ s.timeoutDue = some s.now then (s, [Obs.refused])
+  else ({ s with now := s.now + 1 }, [])
+
+/-- the `ignore_hits_within_window` delay runs (`stop_ignoring_hits`) -/
+def fireW (s : St) : St × List Obs :=
+  if s.windowUntil = some s.now then ({ s with windowUntil := none }, []) else (s, [Obs.refused])
+
+/-- the `timeout` delay runs (`_logic_block_timeout`) -/
+def fireT (c : Cfg) (s : St) : St × List Obs :=
+  if s.timeoutDue = some s.now then
+    let r := reset c { s with timeoutDue := none }
     (r.1, Obs.timeout :: r.2)
-  else (s1, [])
+  else (s, [Obs.refused])
 
 /-- the mode stops: state dropped, delays cleared, `ignore_hits` cleared -/
 def unload (s : St) : St :=
@@ -180,8 +197,10 @@ def init (c : Cfg) : St :=
 
 /-- an op while the owning mode is not running: only the clock moves; `load` starts the mode -/
 def stepUnloaded (c : Cfg) (s : St) : Op → St × List Obs
-  | .tick => ({ s with now := s.now + 1 }, [])
+  | .clock => ({ s with now := s.now + 1 }, [])
   | .load => load c s
+  | .fireW => (s, [Obs.refused])
+  | .fireT => (s, [Obs.refused])
   | _ => (s, [])
 
 def stepLoaded (c : Cfg) (s : St) : Op → St × List Obs
@@ -194,7 +213,12 @@ def stepLoaded (c : Cfg) (s : St) : Op → St × List Obs
   | .add n => (match c.kind with | .counter => adjust c s (s.value + n) | _ => (s, []))
   | .sub n => (match c.kind with | .counter => adjust c s (s.value - n) | _ => (s, []))
   | .set n => (match c.kind with | .counter => adjust c s n | _ => (s, []))
-  | .tick => tick c s
+  | .clock => clock s
+  | .fireW => fireW s
+  | .fireT => fireT c s
+  | .advr k => (match c.kind with
+      | .accrual => if getFlag s.flags k then (s, []) else accrualHit c s k
+      | _ => (s, []))
   | .unload => (unload s, [])
   | .load => (s, [])
 
@@ -208,6 +232,103 @@ def run (c : Cfg) : St → List Op → St × List (Op × List Obs)
     let a := step c s op
     let b := run c a.1 r
     (b.1, (op, a.2) :: b.2)
+
+/-! ## the block in its environment: templates, delayed control events, per-player persistence -/
+
+/-- what `persist_state` keeps in the player variable `<name>_state` -/
+structure Snap where
+  enabled : Bool
+  completed : Bool
+  value : Int
+  flags : List Bool
+  deriving DecidableEq, Repr
+
+/-- a control event that may be configured with a delay (`{event: ms}`) -/
+inductive Act | count | enable | disable | reset | restart | advr
+  deriving DecidableEq, Repr
+
+/-- the method a (delayed) control event calls; `k` is the random choice of `advance_random` made when it runs -/
+def actOp (a : Act) (k : Nat) : Op :=
+  match a with
+  | .count => .count | .enable => .enable | .disable => .disable | .reset => .reset | .restart => .restart
+  | .advr => .advr k
+
+structure Sys where
+  c : Cfg := {}
+  s : St := {}
+  persist : Bool := false
+  cur : Nat := 0                          -- the player who is up
+  saved : List (Nat × Snap) := []         -- player variable `<name>_state` per player (newest entry first)
+  pending : List (Nat × Act) := []        -- delayed control calls: (due, what), in scheduling order
+  deriving DecidableEq, Repr
+
+inductive XOp
+  | core (o : Op)
+  | dpost (a : Act) (d : Nat)             -- the event of a `{event: d}` entry is posted
+  | fireD (a : Act) (k : Nat)             -- a delayed call for `a` that is due runs
+  | setStart (n : Int)                    -- the variable behind `starting_count` changes
+  | setGoal (g : Option Int)              -- the variable behind `count_complete_value` changes
+  | stopMode
+  | startMode (p : Nat)
+  deriving DecidableEq, Repr
+
+def lookupSnap (p : Nat) : List (Nat × Snap) → Option Snap
+  | [] => none
+  | x :: r => if x.1 = p then some x.2 else lookupSnap p r
+
+def snapOf (s : St) : Snap := ⟨s.enabled, s.completed, s.value, s.flags⟩
+
+def dueNow (now : Nat) (pending : List (Nat × Act)) : Bool := pending.any (fun x => x.1 == now)
+
+/-- remove the first pending call `(now, a)`; `none` when there is none -/
+def takeDue (now : Nat) (a : Act) : List (Nat × Act) → Option (List (Nat × Act))
+  | [] => none
+  | x :: r => if x.1 = now ∧ x.2 = a then some r else (takeDue now a r).map (fun r' => x :: r')
+
+/-- the mode (re)starts for player `p`: stored state of that player, or a fresh block -/
+def startMode (y : Sys) (p : Nat) : Sys × List Obs :=
+  if y.s.loaded then (y, []) else
+  match (if y.persist then lookupSnap p y.saved else none) with
+  | some x =>
+    let s1 : St := { now := y.s.now, loaded := true, enabled := x.enabled, completed := x.completed,
+                     value := x.value, flags := x.flags }
+    ({ y with s := s1, cur := p }, [upd s1])
+  | none => let r := load y.c y.s; ({ y with s := r.1, cur := p }, r.2)
+
+/-- the mode stops: the state stays with the player (if persisted), the mode's delays are cleared -/
+def stopMode (y : Sys) : Sys :=
+  if y.s.loaded = false then y else
+  { y with s := unload y.s, pending := [],
+           saved := if y.persist then (y.cur, snapOf y.s) :: y.saved else y.saved }
+
+def xstep (y : Sys) : XOp → Sys × List Obs
+  | .core .unload => (stopMode y, [])
+  | .core .load => startMode y y.cur
+  | .core .clock =>
+    if dueNow y.s.now y.pending then (y, [Obs.refused])
+    else let r := step y.c y.s .clock; ({ y with s := r.1 }, r.2)
+  | .core o => let r := step y.c y.s o; ({ y with s := r.1 }, r.2)
+  | .dpost a d => if y.s.loaded then ({ y with pending := y.pending ++ [(y.s.now + d, a)] }, []) else (y, [])
+  | .fireD a k =>
+    match takeDue y.s.now a y.pending with
+    | some rest => let r := step y.c y.s (actOp a k); ({ y with s := r.1, pending := rest }, r.2)
+    | none => (y, [Obs.refused])
+  | .setStart n => ({ y with c := { y.c with start := n } }, [])
+  | .setGoal g => ({ y with c := { y.c with goal := g } }, [])
+  | .stopMode => (stopMode y, [])
+  | .startMode p => startMode y p
+
+/-- run an op list, one trace entry per op -/
+def xrun : Sys → List XOp → Sys × List (XOp × List Obs)
+  | y, [] => (y, [])
+  | y, op :: r =>
+    let a := xstep y op
+    let b := xrun a.1 r
+    (b.1, (op, a.2) :: b.2)
+
+/-- `boot = true`: a machine-wide block (exists from boot on); `false`: owned by a mode that is not running yet -/
+def xinit (c : Cfg) (persist : Bool) (boot : Bool) : Sys :=
+  { c := c, s := if boot then init c else unload (init c), persist := persist }
 
 /-! ## line-protocol driver -/
 
@@ -224,21 +345,24 @@ def showObs (c : Cfg) : Obs → String
   | .hitStep k => "S:" ++ toString k
   | .complete => "C"
   | .timeout => "T"
+  | .refused => "not-enabled"
+
+def showSnap (c : Cfg) (x : Snap) : String :=
+  showVal c x.value x.flags ++ "," ++ showBool x.enabled ++ "," ++ showBool x.completed
+
+def showSaved (y : Sys) (p : Nat) : String :=
+  if y.s.loaded && p == y.cur then showSnap y.c (snapOf y.s)
+  else match lookupSnap p y.saved with | some x => showSnap y.c x | none => "-"
 
 def showSt (c : Cfg) (s : St) : String :=
   if s.loaded then "v=" ++ showVal c s.value s.flags ++ " e=" ++ showBool s.enabled ++ " c=" ++ showBool s.completed
   else "unloaded"
 
-def showStep (c : Cfg) (r : St × List Obs) : String :=
-  showSt c r.1 ++ " |" ++ String.join (r.2.map (fun o => " " ++ showObs c o))
+def showSys (y : Sys) : String :=
+  showSt y.c y.s ++ (if y.persist then " s=" ++ String.intercalate "/" ([0, 1, 2, 3].map (showSaved y)) else "")
 
-/-- `n` ticks, events concatenated -/
-def ticks (c : Cfg) : Nat → St → St × List Obs
-  | 0, s => (s, [])
-  | n + 1, s =>
-    let a := step c s .tick
-    let b := ticks c n a.1
-    (b.1, a.2 ++ b.2)
+def showStep (r : Sys × List Obs) : String :=
+  showSys r.1 ++ " |" ++ String.join (r.2.map (fun o => " " ++ showObs r.1.c o))
 
 def parseBool (s : String) : Option Bool := if s = "1" then some true else if s = "0" then some false else none
 
@@ -248,8 +372,8 @@ def parseKind (s : String) : Option Kind :=
 
 def parseGoal (s : String) : Option (Option Int) := if s = "-" then some none else s.toInt?.map some
 
-def parseCfg : List String → Option Cfg
-  | [k, st, iv, dn, g, roc, doc, w, t, n, se] => do
+def parseCfg : List String → Option (Cfg × Bool × Bool)
+  | [k, st, iv, dn, g, roc, doc, w, t, n, se, ps, bt] => do
     let kind ← parseKind k
     let start ← st.toInt?
     let interval ← iv.toInt?
@@ -261,14 +385,34 @@ def parseCfg : List String → Option Cfg
     let timeout ← t.toNat?
     let steps ← n.toNat?
     let se ← parseBool se
-    pure { kind := kind, start := start, interval := interval, down := down, goal := goal, resetOnComplete := r,
-           disableOnComplete := d, window := window, timeout := timeout, steps := steps, startEnabled := se }
+    let ps ← parseBool ps
+    let bt ← parseBool bt
+    pure ({ kind := kind, start := start, interval := interval, down := down, goal := goal, resetOnComplete := r,
+            disableOnComplete := d, window := window, timeout := timeout, steps := steps, startEnabled := se }, ps, bt)
   | _ => none
 
+def parseAct (s : String) : Option Act :=
+  if s = "count" then some .count else if s = "enable" then some .enable else if s = "disable" then some .disable
+  else if s = "reset" then some .reset else if s = "restart" then some .restart
+  else if s = "advr" then some .advr else none
+
+/-- the op applies to this kind of block (anything else is a harness error: `bad-op`) -/
 def applicable (c : Cfg) : Op → Bool
   | .count | .add _ | .sub _ | .set _ => c.kind = .counter
   | .hit k => c.kind ≠ .counter && k < c.steps
+  | .advr k => c.kind = .accrual && k < c.steps
   | _ => true
+
+def applicableAct (c : Cfg) : Act → Bool
+  | .count => c.kind = .counter
+  | .advr => c.kind = .accrual
+  | _ => true
+
+/-- the random choice reported by the harness is one `event_advance_random` can make in this state -/
+def advrOk (s : St) (k : Option Nat) : Bool :=
+  match k with
+  | some k => s.loaded && s.enabled && !getFlag s.flags k
+  | none => !s.loaded || !s.enabled || allTrue s.flags
 
 def parseOp : List String → Option Op
   | ["count"] => some .count
@@ -280,26 +424,63 @@ def parseOp : List String → Option Op
   | ["add", n] => n.toInt?.map Op.add
   | ["sub", n] => n.toInt?.map Op.sub
   | ["set", n] => n.toInt?.map Op.set
+  | ["clock"] => some .clock
+  | ["fireW"] => some .fireW
+  | ["fireT"] => some .fireT
   | ["unload"] => some .unload
   | ["load"] => some .load
   | _ => none
 
-def driverStep (cs : Cfg × St) (line : String) : (Cfg × St) × String :=
+def parseChoice (s : String) : Option (Option Nat) := if s = "-" then some none else s.toNat?.map some
+
+def doX (y : Sys) (x : XOp) : Sys × String := let r := xstep y x; (r.1, showStep r)
+
+def driverStep (y : Sys) (line : String) : Sys × String :=
   match line.splitOn " " with
   | "cfg" :: rest =>
     match parseCfg rest with
-    | some c => ((c, init c), "ok " ++ showSt c (init c))
-    | none => (cs, "bad-op")
-  | ["adv", n] =>
-    match n.toNat? with
-    | some k => let r := ticks cs.1 k cs.2; ((cs.1, r.1), showStep cs.1 r)
-    | none => (cs, "bad-op")
+    | some (c, ps, bt) => (xinit c ps bt, "ok " ++ showSys (xinit c ps bt))
+    | none => (y, "bad-op")
+  | ["advr", k] =>
+    match parseChoice k with
+    | some ch =>
+      if y.c.kind = .accrual && (ch.getD 0 < y.c.steps) then
+        (if advrOk y.s ch then doX y (.core (.advr (ch.getD 0))) else (y, "not-enabled"))
+      else (y, "bad-op")
+    | none => (y, "bad-op")
+  | ["dpost", a, d] =>
+    match parseAct a, d.toNat? with
+    | some a, some d => if applicableAct y.c a && 0 < d then doX y (.dpost a d) else (y, "bad-op")
+    | _, _ => (y, "bad-op")
+  | ["fireD", a] =>
+    match parseAct a with
+    | some a => if applicableAct y.c a && a ≠ .advr then doX y (.fireD a 0) else (y, "bad-op")
+    | none => (y, "bad-op")
+  | ["fireD", "advr", k] =>
+    match parseChoice k with
+    | some ch =>
+      if y.c.kind = .accrual && (ch.getD 0 < y.c.steps) then
+        (if advrOk y.s ch then doX y (.fireD .advr (ch.getD 0)) else (y, "not-enabled"))
+      else (y, "bad-op")
+    | none => (y, "bad-op")
+  | ["setstart", n] =>
+    match n.toInt? with
+    | some n => doX y (.setStart n)
+    | none => (y, "bad-op")
+  | ["setgoal", g] =>
+    match parseGoal g with
+    | some g => doX y (.setGoal g)
+    | none => (y, "bad-op")
+  | ["stopmode"] => doX y .stopMode
+  | ["startmode", p] =>
+    match p.toNat? with
+    | some p => doX y (.startMode p)
+    | none => (y, "bad-op")
   | toks =>
     match parseOp toks with
-    | some op =>
-      if applicable cs.1 op then let r := step cs.1 cs.2 op; ((cs.1, r.1), showStep cs.1 r) else (cs, "bad-op")
-    | none => (cs, "bad-op")
+    | some op => if applicable y.c op then doX y (.core op) else (y, "bad-op")
+    | none => (y, "bad-op")
 
-def driverInit : Cfg × St := ({}, {})
+def driverInit : Sys := {}
 
 end MpfVerif.LogicBlock
